@@ -424,8 +424,13 @@ func C10(p *Prog, r *Run) {
 			default:
 				// the same updates made on a local and stored once (`f := org.Fitness; if .. {f *= 0.01}; if f < 0
 				// {f = 0.0001}; org.Fitness = f / n`, or the arithmetic moved into a helper): the stored value is
-				// judged as a composition of such steps
+				// judged as a composition of such steps, or, failing that, per path of one iteration
 				okM, why = c10ScaledFitness(ta, st.Val, self)
+				if !okM {
+					if okP, w := c10OrderPreservingByPaths(adj, ta, st, self); okP {
+						okM, why = true, w
+					}
+				}
 			}
 			r.Check(okM, "adjustFitness.order-preserving", p.Pos(st.Pos()), "fitness update keeps the order of distinct positive values ("+why+")",
 				"before the species is sorted an organism's fitness is "+why+": distinct positive fitness values can become equal (or change order), so Organisms[0] - the organism that is cloned - need not be the fittest")
